@@ -4,7 +4,9 @@
    number of black-holed / locked thunks left in the session heap (`bh,lk`).
    argv[1] = "spec"   : print instead the stand-alone call-by-name meaning (coq/Mech/Spec.v) of
                         every non-def input (`-` for defs);
-   argv[1] = "broken" : use the deliberately broken [unwind_broken]. *)
+   argv[1] = "broken" : use the deliberately broken [unwind_broken];
+   argv[1] = "nounlock" : eval_guarded without the unlock on the error path;
+   argv[1] = "satcopy" : copies of thunk data keep the state (the pinned ThunkData::clone). *)
 open C12_model
 
 let inf_steps = 5000
@@ -67,6 +69,8 @@ let rec tm_of (s : sx) : tm =
        | "add" -> Op2 (OAdd, a 0, a 1)
        | "sub" -> Op2 (OSub, a 0, a 1)
        | "lt" -> Op2 (OLt, a 0, a 1)
+       | "merge" -> Op2 (OMerge, a 0, a 1)
+       | "seq" -> Seq (a 0, a 1)
        | "if" -> If (a 0, a 1, a 2)
        | "rec" -> Rec (List.map (function List [Atom f; e] -> (f, tm_of e) | _ -> failwith "field") args)
        | "proj" -> Proj (a 0, x 1)
@@ -89,6 +93,7 @@ let class_of = function
   | ETypeErr -> "TypeErr" | ENotAFunc -> "NotAFunc" | EFieldMissing -> "FieldMissing"
   | EUnbound -> "UnboundId" | EBlame -> "Blame+" | EInfRec -> "InfiniteRec"
   | EQueryNonRecord -> "QueryNonRecord" | EPanic -> "ModelPanic"
+  | ENonMergeable -> "NonMergeable" | EOutOfFragment -> "ModelOutOfFragment"
 
 let show_obs = function
   | ONum n -> "#" ^ string_of_z n
@@ -146,7 +151,7 @@ let () =
         let rec go s = function
           | [] -> ([], [])
           | i :: rest ->
-              let (s', o) = sess_step_gen unlock_on_err unw s i in
+              let (s', o) = if mode = "satcopy" then sess_step_satcopy s i else sess_step_gen unlock_on_err unw s i in
               let st = Printf.sprintf "%d,%d" (int_of_nat (count_blackholed s'.sheap)) (int_of_nat (count_locked s'.sheap)) in
               let (os, sts) = go s' rest in
               let shown = match i, o with ISpine _, OData dt -> "OK " ^ show_spine dt | _ -> show_outcome o in
